@@ -57,6 +57,10 @@ fn run<G: Group>(sc: &Scenario, st: &mut RunStats) -> Vec<Violation> {
     let mut out = Vec::new();
     st.group(G::NAME);
     let mut srng = SimRng::new(sc.scalar_seed);
+    // earlier parameter sets stay alive while later ones are built and checked (a cache keyed too
+    // coarsely could hand a later set something that belongs to an earlier one)
+    let mut alive = Vec::new();
+    let mut keep = Vec::new();
     for (ci, (bits, cap, ext)) in sc.order.iter().enumerate() {
         let (bits, cap, ext) = (*bits, *cap, *ext);
         // fresh construction every time (no cache): construction order is the point
@@ -181,6 +185,11 @@ fn run<G: Group>(sc: &Scenario, st: &mut RunStats) -> Vec<Violation> {
             return out;
         }
         st.event(format!("construct#{} {} ok points={} digest={}", ci, key, total, digest(&[&encs.concat()])));
+        if alive.iter().any(|(b, c): &(usize, usize)| *b * *c == bits * cap && (*b, *c) != (bits, cap)) {
+            st.probe("same_table_size_different_shape_alive");
+        }
+        alive.push((bits, cap));
+        keep.push(params);
     }
     out
 }
@@ -270,6 +279,15 @@ impl Check for C11 {
             }
             order.push((bits, cap, rng.range(1, 6) as usize));
         }
+        // a partner of the same table size but a different shape right after one of the constructions
+        if rng.chance(1, 2) {
+            let at = rng.usize_below(order.len());
+            let (b, c, e) = order[at];
+            let partner = if b >= 2 && c <= 16 { Some((b / 2, c * 2, e)) } else if c >= 2 && b <= 32 { Some((b * 2, c / 2, e)) } else { None };
+            if let Some(p) = partner {
+                order.insert(at + 1, p);
+            }
+        }
         // the full lattice point is always present in thorough runs and in every 8th quick run
         if tier == Tier::Thorough && index % 4 == 1 || index % 16 == 2 {
             let pos = rng.usize_below(order.len() + 1);
@@ -313,6 +331,6 @@ impl Check for C11 {
     }
 
     fn required_probes(&self, _tier: Tier) -> Vec<&'static str> {
-        vec!["full_lattice_point_64_32", "construction_after_other_constructions"]
+        vec!["full_lattice_point_64_32", "construction_after_other_constructions", "same_table_size_different_shape_alive"]
     }
 }
